@@ -94,7 +94,9 @@ SDeliver ==
     /\ Is("Deliver") /\ Adv /\ Same
     /\ CASE e.via \in {"chan", "queued"} ->
               /\ inq' = IF InChain(e.kind, e.h) /\ pc # "down" THEN Append(inq, Ev(e.kind, e.h)) ELSE inq
-              /\ UNCHANGED <<onDA, cur, chunks, stopped, ps, lp, fs>>
+              \* "queued": the blob also lies on the DA layer at that height (the scan of a later process finds it again)
+              /\ onDA' = IF e.via = "queued" THEN onDA \cup {[kind |-> e.kind, h |-> e.h, dah |-> e.dah]} ELSE onDA
+              /\ UNCHANGED <<cur, chunks, stopped, ps, lp, fs>>
          [] e.via = "p2p" ->      \* appended to the store (in height order); the store's signal makes the loop poll
               /\ ps' = [ps EXCEPT ![e.kind] = e.h]
               /\ IF pc # "down" /\ e.h > lp[e.kind]
